@@ -65,6 +65,9 @@ func c19dataEngine(level stats.Level, log *[]string, cur **scriptConn) *route.En
 		if ctx.Query("hijack") != "" {
 			ctx.Hijack(func(c network.Conn) {})
 		}
+		if ctx.Query("exile") != "" {
+			ctx.Exile()
+		}
 		ctx.SetStatusCode(200)
 	})
 	startEngine(e)
@@ -128,7 +131,7 @@ func init() {
 			return fs
 		},
 		Gen: func(t *T) {
-			outs := "kcpmbtwh"
+			outs := "kcpmbtwhx"
 			// every pair of single-request connections, both levels; then random longer ones
 			for _, a := range outs {
 				for _, b := range outs {
@@ -144,7 +147,7 @@ func init() {
 					n := 1 + t.R.Intn(3)
 					b := make([]byte, n)
 					for j := range b {
-						b[j] = "kkp"[t.R.Intn(3)]
+						b[j] = "kkpx"[t.R.Intn(4)]
 					}
 					b[n-1] = outs[t.R.Intn(len(outs))]
 					cs = append(cs, string(b)+string("ET"[t.R.Intn(2)]))
